@@ -171,6 +171,11 @@ namespace BitSerializer::Csv::Detail
 			// Handle end of file (RFC: The last record in the file may or may not have an ending line break)
 			if (mCurrentPos == mSourceString.size())
 			{
+				if (!isEndLine && endValuePos != totalSize)
+				{
+					// The text ends with a separator: one more (empty) value follows it
+					out_values.emplace_back(mCurrentPos, 0, false);
+				}
 				break;
 			}
 		}
